@@ -66,7 +66,7 @@ CHECKS = {
     "C12": (
         "model_checking",
         "bounded-exhaustive enumeration of input strings (all strings over a lexical-class alphabet up to a length; context prefix x all short strings; all single edits of seeds) through every parser entry point in watched child processes",
-        "For each of nine entry points (ASTWithValidityInfo::new + YaccGrammar::new for the five yacc kinds, ASTWithValidityInfo/YaccGrammar::from_str, LRNonStreamingLexerDef::from_str, GrmtoolsSectionParser::parse optional/required): every string of up to 3 (thorough 5) symbols over a 28-symbol alphabet with a representative of every lexical class incl. multi-byte characters; every one of ~50 context prefixes followed by every string of up to 3 (4) symbols; every truncation and every single-character deletion / substitution / insertion of the seed specifications (hand-written ones and the repository's examples); decimal strings around 2^8, 2^16, 2^32, 2^64, 2^128 in every numeric position. Oracle: returns within the limit, no panic, a value or a non-empty error list, every span of every error and warning within the text and on character boundaries, and the diagnostic formatter renders it.",
+        "For each of nine entry points (ASTWithValidityInfo::new + YaccGrammar::new for the five yacc kinds, ASTWithValidityInfo/YaccGrammar::from_str, LRNonStreamingLexerDef::from_str, GrmtoolsSectionParser::parse optional/required): every string of up to 3 (thorough 4) symbols over a 37-symbol alphabet with a representative of every lexical class incl. multi-byte characters and every class of white space the parsers distinguish (blank, tab, LF, CR, VT, FF, NEL, line separator, no-break space, left-to-right mark); every one of ~50 context prefixes followed by every string of up to 2 (3) symbols; every truncation and every single-character deletion / substitution / insertion of the seed specifications (hand-written ones and the repository's examples); decimal strings around 2^8, 2^16, 2^32, 2^64, 2^128 in every numeric position. Oracle: returns within the limit, no panic, a value or a non-empty error list, every span of every error and warning within the text and on character boundaries, and the diagnostic formatter renders it.",
         "Pairs of edits and longer free strings are outside the bound. A timeout is a verdict only after the single input was re-run alone with a longer limit.",
         "DESIGN.md 3/C12",
     ),
